@@ -38,7 +38,7 @@ SPEC = {
 
 PLAN = {
     "quick": {"small_n": 4, "random": {"M2": 1400, "M3": 900, "M4": 300, "M5": 300, "M7s": 200, "M10hiso": 600, "M12rings": 500}, "variants": 2, "k": 2, "corpus": True, "cfi": 0},
-    "thorough": {"small_n": 5, "small_sample": 0.12, "random": {"M2": 12000, "M3": 8000, "M4": 3000, "M5": 3000, "M7s": 1500, "M10hiso": 6000, "M12rings": 5000},
+    "thorough": {"small_n": 5, "small_sample": 0.12, "extra": [(6, [("C", 0, 0)])], "random": {"M2": 12000, "M3": 8000, "M4": 3000, "M5": 3000, "M7s": 1500, "M10hiso": 6000, "M12rings": 5000},
                  "variants": 4, "k": 4, "corpus": True, "cfi": 6},
 }
 
@@ -142,7 +142,7 @@ def run(ctx):
     monitors.install(ctx, {"C01"}, k_relabel=plan["k"], seed=f"{ctx.seed}/{ctx.shard}")
     ctx.events = open(ctx.events_path, "w")
     k = 0
-    for mol in common.small_exhaustive(ctx, plan["small_n"]):
+    for mol in common.small_exhaustive(ctx, plan["small_n"], extra=plan.get("extra", ())):
         if plan.get("small_sample") and len(mol.atoms) == plan["small_n"] and ctx.rng.random() > plan["small_sample"]:
             continue
         run_case(ctx, {"kind": "mol", "mol": mol.to_json(), "cls": "M1", "name": mol.name, "vseed": f"{ctx.seed}/{mol.name}"})
